@@ -44,6 +44,12 @@ def accel_decls():
     return "\n".join(out)
 
 
+# loop bound kinds: run-time arguments, constant/argument mixes, and all-constant ranges incl. empty ones (lb > ub)
+BOUNDS = {"args": ("%lb", "%ub", "%st"), "c01": ("%c0", "%ub", "%c1"), "c0s": ("%c0", "%ub", "%st"),
+          "k42": ("%c4", "%c2", "%c1"), "k13": ("%c1", "%c3", "%c1"), "k50s2": ("%c5", "%c0", "%c2"), "k05s2": ("%c0", "%c5", "%c2")}
+ALL_BOUNDS = ["args", "c01", "c0s", "k42", "k13", "k50s2", "k05s2"]
+
+
 class Render:
     def __init__(self):
         self.n = 0
@@ -123,7 +129,7 @@ class Render:
         elif k == "for":
             _, bounds, body = s
             iv = self.fresh("i")
-            lb, ub, stp = {"args": ("%lb", "%ub", "%st"), "c01": ("%c0", "%ub", "%c1"), "c0s": ("%c0", "%ub", "%st")}[bounds]
+            lb, ub, stp = BOUNDS[bounds]
             self.emit(f"scf.for {iv} = {lb} to {ub} step {stp} {{", ind)
             self.ivs.append(iv)
             self.accs.append(None)
@@ -135,7 +141,7 @@ class Render:
         elif k == "forc":
             _, bounds, body = s
             iv, acc, res = self.fresh("i"), self.fresh("acc"), self.fresh("r")
-            lb, ub, stp = {"args": ("%lb", "%ub", "%st"), "c01": ("%c0", "%ub", "%c1"), "c0s": ("%c0", "%ub", "%st")}[bounds]
+            lb, ub, stp = BOUNDS[bounds]
             self.emit(f"{res} = scf.for {iv} = {lb} to {ub} step {stp} iter_args({acc} = %a0) -> (i32) {{", ind)
             self.ivs.append(iv)
             self.accs.append(acc)
@@ -192,6 +198,10 @@ def render(prog, decls=True):
     %l = arith.constant 1 : i5
     %c0 = arith.constant 0 : index
     %c1 = arith.constant 1 : index
+    %c2 = arith.constant 2 : index
+    %c3 = arith.constant 3 : index
+    %c4 = arith.constant 4 : index
+    %c5 = arith.constant 5 : index
 {body}
     func.return
   }}
@@ -305,7 +315,7 @@ def program_set(tier, seed, want_calls=True):
     quick = tier == "quick"
     # exhaustive: one accelerator, palette 4, sizes <= 3 (quick) / <= 4 (thorough), depth <= 2
     for size in range(1, 4 if quick else 5):
-        for p in gen_blocks(size, 2, ["acc1"], False, 3 if size >= 3 else 4, ["args"]):
+        for p in gen_blocks(size, 2, ["acc1"], False, 3 if size >= 3 else 4, ["args"] if size >= 4 else ["args", "k42"]):
             if not want_calls and any(s[0] in ("call", "callnone", "lcall") for s in p):
                 continue
             if size >= 3 and count_cfg(p) < 2:
@@ -319,7 +329,7 @@ def program_set(tier, seed, want_calls=True):
         tries += 1
         size = rnd.randint(3, 6 if quick else 8)
         accs = ["acc1"] if rnd.random() < 0.6 else ["acc1", "acc2"]
-        p = random_prog(rnd, size, 2 if quick else 3, accs, 9, ["args", "c01", "c0s"])
+        p = random_prog(rnd, size, 2 if quick else 3, accs, 9, ALL_BOUNDS)
         if count_cfg(p) >= 2:
             add(p)
     return progs, n_exh
